@@ -241,23 +241,24 @@ type guard struct {
 	sub  []guard
 }
 
-func gc(name string) guard              { return guard{kind: gCall, name: name, pol: true} }
-func gcNot(name string) guard           { return guard{kind: gCall, name: name, pol: false} }
-func gf(name string) guard              { return guard{kind: gField, name: name, pol: true} }
-func gfNot(name string) guard           { return guard{kind: gField, name: name, pol: false} }
-func gNonNil(name string) guard         { return guard{kind: gNil, name: name, pol: false} }
-func gIsNil(name string) guard          { return guard{kind: gNil, name: name, pol: true} }
-func gOk(name string) guard             { return guard{kind: gOkLookup, name: name, pol: true} }
-func gNotOk(name string) guard          { return guard{kind: gOkLookup, name: name, pol: false} }
-func gcmp(text string) guard            { return guard{kind: gCmp, name: text, pol: true} }
-func gcmpNot(text string) guard         { return guard{kind: gCmp, name: text, pol: false} }
-func gany(gs ...guard) guard            { return guard{kind: gAny, sub: gs} }
-func grange(name string) guard          { return guard{kind: gInRange, name: name} }
-func gprefix() guard                    { return guard{kind: gHasPrefix, pol: true} }
-func gassign(lhs, rhs string) guard     { return guard{kind: gDomAssign, name: lhs, rhs: rhs} }
-func gvarNonNil(name string) guard      { return guard{kind: gNonNilVar, name: name} }
-func gvia(from guard, lhs string) guard { return guard{kind: gVia, name: lhs, sub: []guard{from}} }
-func gdomcall(name string) guard        { return guard{kind: gDomCall, name: name} }
+func gc(name string) guard               { return guard{kind: gCall, name: name, pol: true} }
+func gcNot(name string) guard            { return guard{kind: gCall, name: name, pol: false} }
+func gf(name string) guard               { return guard{kind: gField, name: name, pol: true} }
+func gfNot(name string) guard            { return guard{kind: gField, name: name, pol: false} }
+func gNonNil(name string) guard          { return guard{kind: gNil, name: name, pol: false} }
+func gIsNil(name string) guard           { return guard{kind: gNil, name: name, pol: true} }
+func gOk(name string) guard              { return guard{kind: gOkLookup, name: name, pol: true} }
+func gNotOk(name string) guard           { return guard{kind: gOkLookup, name: name, pol: false} }
+func gcmp(text string) guard             { return guard{kind: gCmp, name: text, pol: true} }
+func gcmpNot(text string) guard          { return guard{kind: gCmp, name: text, pol: false} }
+func gany(gs ...guard) guard             { return guard{kind: gAny, sub: gs} }
+func grange(name string) guard           { return guard{kind: gInRange, name: name} }
+func gprefix() guard                     { return guard{kind: gHasPrefix, pol: true} }
+func gassign(lhs, rhs string) guard      { return guard{kind: gDomAssign, name: lhs, rhs: rhs} }
+func gvarNonNil(name string) guard       { return guard{kind: gNonNilVar, name: name} }
+func gvia(from guard, lhs string) guard  { return guard{kind: gVia, name: lhs, sub: []guard{from}} }
+func gdomcallArg(name, arg string) guard { return guard{kind: gDomCall, name: name, rhs: arg} }
+func gdomcall(name string) guard         { return guard{kind: gDomCall, name: name} }
 
 func (g guard) String() string {
 	p := ""
@@ -514,7 +515,15 @@ func guardHolds(p5c *p5, fn *Func, at ast.Node, g guard) bool {
 		ast.Inspect(fn.Body, func(n ast.Node) bool {
 			if call, ok := n.(*ast.CallExpr); ok {
 				if f := calleeOf(fn.Info(), call); f != nil && f.Name() == g.name && fn.Dominates(call, at) && call != at {
-					found = true
+					if g.rhs == "" {
+						found = true
+					} else {
+						for _, a := range call.Args {
+							if exprStr(a) == g.rhs {
+								found = true
+							}
+						}
+					}
 				}
 			}
 			return true
